@@ -1437,7 +1437,7 @@ def _run_core(ctx):
 def replay(ctx, obj):
     """re-run one recorded failing input on the current implementation: 1 = still failing"""
     r = obj.get("replay", obj)
-    if "W" not in r and "arg" not in r and r.get("kind") != "objhist":
+    if "W" not in r and "arg" not in r and r.get("kind") not in ("objhist", "randprob", "cachehist"):
         # a `no-failing-input-found` record (broken proof obligation / correspondence): nothing to re-run on the code
         print(json.dumps(obj, indent=1, default=str)[:4000])
         return 1
@@ -1445,6 +1445,9 @@ def replay(ctx, obj):
         warnings.simplefilter("ignore")
         code = Code()
         kind = r.get("kind", "")
+        if kind in ("randprob", "cachehist"):
+            from props import c02_ext
+            return c02_ext.replay_ext(ctx, r)
         if kind == "objhist":
             fails, _recs, _info = object_history(r["label"], 160)
             for sig, what, _rep in fails:
@@ -1568,3 +1571,12 @@ def run(ctx):
         warnings.simplefilter("ignore")
         _object_state(ctx)
     _cache_coherence(ctx)
+    # extension pass: intermediate values of inf_retis, random_prob with scripted draws, the `_last_prob` state
+    # machine, hole-vector witnesses (props/c02_ext.py)
+    from props import c02_ext
+    try:
+        c02_ext.run_ext(ctx)
+    except Exception as e:  # noqa: BLE001  (never let a harness error hide the verdicts above)
+        import traceback
+        ctx.disagree({"fn": "extension sections could not be completed"}, f"{type(e).__name__}: {e}",
+                     traceback.format_exc(limit=-3)[-400:])
